@@ -1,6 +1,7 @@
 package c11
 
 import (
+	"time"
 	"encoding/json"
 	"fmt"
 	"os"
@@ -58,6 +59,7 @@ func TestProbeDump(t *testing.T) {
 	vj, _ := execute(request{Name: jsonName, Data: j, Strict: c.Strict})
 	vy, _ := execute(request{Name: yamlName, Data: y, Strict: c.Strict})
 	fmt.Printf("fault at %s (mutated path %v)\nJSON: %s@%s %s %+v\nYAML: %s@%s %s %+v\n", pointerOf(base.keyPath(c.Path)), a.Fault, vj.Class, vj.Stage, vj.Err, vj.Locs, vy.Class, vy.Stage, vy.Err, vy.Locs)
+	fmt.Printf("STDERR JSON:\n%s\n", vj.Stderr)
 	o := evalMutant(c)
 	fmt.Printf("labels=%v finding=%+v\n", o.labels, o.finding)
 }
@@ -66,12 +68,39 @@ func TestProbeDeep(t *testing.T) {
 	if os.Getenv("C11_DEEP") == "" {
 		t.Skip()
 	}
-	for _, kind := range []string{"array", "object", "allOf", "oneOf", "addprops"} {
-		for _, d := range []int{1000, 3000} {
-			tree := mapping("openapi", str("3.0.3"), "info", mapping("title", str("t"), "version", str("1")), "paths", mapping("/a", mapping("get", mapping("operationId", str("a"), "responses", mapping("200", mapping("description", str("d"), "content", mapping("application/json", mapping("schema", deepSchema(fmt.Sprintf("%s:%d", kind, d))))))))))
-			j := emitJSON(tree)
-			v, _ := execute(request{Name: jsonName, Data: j})
-			fmt.Printf("%s depth=%d size=%d -> %s@%s %dms %s\n", kind, d, len(j), v.Class, v.Stage, v.MS, clip(v.Err, 150))
+	var d int
+	kind := "array"
+	fmt.Sscanf(os.Getenv("C11_DEEP"), "%d", &d)
+	if k := os.Getenv("C11_KIND"); k != "" {
+		kind = k
+	}
+	tree := mapping("openapi", str("3.0.3"), "info", mapping("title", str("t"), "version", str("1")),
+		"paths", mapping("/a", mapping("get", mapping("operationId", str("a"), "responses", mapping("200", mapping("description", str("d"), "content", mapping("application/json", mapping("schema", deepSchema(fmt.Sprintf("%s:%d", kind, d))))))))))
+	j := emitJSON(tree)
+	os.WriteFile("/tmp/probe-c11/deep.json", j, 0o644)
+	w, _ := startWorker()
+	v, _ := w.run(request{Name: jsonName, Data: j}, 40*time.Second)
+	fmt.Printf("%s depth=%d size=%d -> %s@%s %dms %s\n%s\n", kind, d, len(j), v.Class, v.Stage, v.MS, clip(v.Err, 150), v.Stderr)
+}
+
+func TestProbeCount(t *testing.T) {
+	if os.Getenv("C11_COUNT") == "" {
+		t.Skip()
+	}
+	loadCorpus()
+	tot := 0
+	for _, b := range corpusFiles {
+		if b.Tree() == nil {
+			continue
+		}
+		n := 0
+		for _, f := range faultKinds {
+			n += len(b.sites.byFault[f])
+		}
+		fmt.Printf("%-50s %8d nodes=%6d mutants=%6d\n", b.Rel, len(b.Data), b.sites.nodes, n)
+		if len(b.Data) <= 64<<10 {
+			tot += n
 		}
 	}
+	fmt.Println("total <=64KiB:", tot)
 }
